@@ -154,11 +154,13 @@ def _install():
             c["straddle"] = straddle
             c["path"] = getattr(fm, "_verif", {}).get("path")
             return True
-        solver_tol = {None: 1e-9 * (1 + 1 / smin), "lsq": 1e-5 * (1 + 1 / smin),
-                      "lsq_linear": 1e-4 + 1e-9 / smin ** 4}[c["method"]]
+        # solver tolerances measured on the unchanged tree with >= 10x margin (lsq_linear works on the normal equations:
+        # its error grows like 1e-9 / sigma_min^4)
+        solver_tol = {None: 1e-8 * (1 + 1 / smin), "lsq": 1e-5 * (1 + 1 / smin),
+                      "lsq_linear": 1e-4 + 1e-8 / smin ** 4}[c["method"]]
         if straddle == 0:
             first = np.linalg.norm(dA @ x_true)
-            tol = 3 * pinv_norm * first * (1 + pinv_norm * np.linalg.norm(dA, 2)) + solver_tol
+            tol = 5 * pinv_norm * first * (1 + pinv_norm * np.linalg.norm(dA, 2)) + solver_tol
         else:
             tol = solver_tol          # provisional; straddled systems are judged against the defect-aware model
         c["tol"] = tol
@@ -253,7 +255,8 @@ def _one(rng, fam, mon, sigs, hist, metrics):
     if method == "lsq" and len(at.cells) > 30:      # lmfit is slow: keep its systems moderate
         from fv.gen import tissue as _t
         at = at.sub(_t.random_connected_subset(rng, at, int(rng.integers(12, 30))))
-    at, posed = scen.pose(rng, at)
+    # unit changes are as likely as all rotations together: tissues given in metres (1e-6) ... kilo-pixels
+    at, posed = scen.pose(rng, at, mode=["id", "rot", "axis", "sim", "reflect", "scale", "scale", "scale"][int(rng.integers(8))])
     if fam == "vor":
         k = int(rng.integers(0, 17)) if rng.random() < 0.6 else (0, 16)
     else:
